@@ -211,7 +211,7 @@ impl CKKSEncoder {
         let coeff_count = parms.poly_modulus_degree();
 
         // Check that scale is positive and not too large
-        if scale <= 0.0 || (scale.log2() + 1.0 >= context_data.total_coeff_modulus_bit_count() as f64) {
+        if !(scale > 0.0) || (scale.log2() + 1.0 >= context_data.total_coeff_modulus_bit_count() as f64) {
             panic!("[Invalid argument] scale out of bounds.");
         }
 
@@ -347,7 +347,7 @@ impl CKKSEncoder {
         let ntt_tables = context_data.small_ntt_tables();
 
         // Check that scale is positive and not too large
-        if scale <= 0.0 || (scale.log2() + 1.0 >= context_data.total_coeff_modulus_bit_count() as f64) {
+        if !(scale > 0.0) || (scale.log2() + 1.0 >= context_data.total_coeff_modulus_bit_count() as f64) {
             panic!("[Invalid argument] scale out of bounds.");
         }
 
@@ -469,7 +469,7 @@ impl CKKSEncoder {
         let coeff_count = parms.poly_modulus_degree();
 
         // Check that scale is positive and not too large
-        if scale <= 0.0 || (scale.log2() + 1.0 >= context_data.total_coeff_modulus_bit_count() as f64) {
+        if !(scale > 0.0) || (scale.log2() + 1.0 >= context_data.total_coeff_modulus_bit_count() as f64) {
             panic!("[Invalid argument] scale out of bounds.");
         }
 
